@@ -53,7 +53,7 @@ func probeList() []probe {
 			return true
 		}},
 		{name: "uncommitted:hdr.L2GasPrice(0.13.2-format)", mutate: func(b *Built) bool {
-			if b.Block.ProtocolVersion >= "0.13.4" {
+			if vge(b.Block.ProtocolVersion, 0, 13, 4) {
 				return false
 			}
 			b.Block.L2GasPrice = &core.GasPrice{PriceInWei: bump(b.Block.L2GasPrice.PriceInWei), PriceInFri: b.Block.L2GasPrice.PriceInFri}
@@ -104,7 +104,7 @@ func probeList() []probe {
 			return false // documented only: changing the counts changes the hash; see findings
 		}},
 		{name: "noninjective:0.13.2-signature[0]->[]", mutate: func(b *Built) bool {
-			if b.Block.ProtocolVersion >= "0.13.4" || b.Block.ProtocolVersion < "0.13.2" {
+			if vge(b.Block.ProtocolVersion, 0, 13, 4) || !vge(b.Block.ProtocolVersion, 0, 13, 2) {
 				return false
 			}
 			for _, tx := range b.Block.Transactions {
@@ -246,7 +246,7 @@ func shortErr(err error) string {
 	return s
 }
 
-var hexRe = regexp.MustCompile(`0x[0-9a-fA-F]+`)
+var hexRe = regexp.MustCompile(`0x[0-9a-fA-F]+|block \d+`)
 
 // crossingProbe: a chain whose class trie is empty crosses from a pre-0.14.0 version to 0.14.0. The state
 // commitment formula changes (contract root alone -> Poseidon(STATE_V0, contract root, class root)), so the
@@ -310,4 +310,46 @@ func (r *runner) crossingProbe() {
 		}
 	}
 	r.c.Extra["version_crossing_with_empty_class_trie"] = obs
+}
+
+// uncommittedProbes: for a post-0.7-format block, one tampering of every KIND of field that format does not
+// commit to, each on a clone: records whether juno stores the block (it should: nothing it checks changed).
+func (r *runner) uncommittedProbes(valid []func() *Built, mk func() *Built, fols []*follower, names []string) {
+	if len(names) == 0 {
+		return
+	}
+	obs, _ := r.c.Extra["post07_uncommitted_probes"].(map[string]int)
+	if obs == nil {
+		obs = map[string]int{}
+		r.c.Extra["post07_uncommitted_probes"] = obs
+	}
+	seen := map[string]bool{}
+	for _, name := range names {
+		k := tamperKind(name)
+		if seen[k] {
+			continue
+		}
+		seen[k] = true
+		for _, fo := range fols {
+			b := mk()
+			done := false
+			forEachTamper(b, func(n string, mutate func()) {
+				if n == name && !done {
+					mutate()
+					done = true
+				}
+			})
+			clone := r.rebuild(fo, valid)
+			err, pan := store(clone.node, b)
+			r.c.Count("post07-uncommitted/"+k+"/"+backendName(fo.newState), true)
+			switch {
+			case pan != "":
+				obs[fmt.Sprintf("%s [%s] => PANIC %s", k, backendName(fo.newState), pan)]++
+			case err != nil:
+				obs[fmt.Sprintf("%s [%s] => rejected (%s)", k, backendName(fo.newState), shortErr(err))]++
+			default:
+				obs[fmt.Sprintf("%s [%s] => accepted", k, backendName(fo.newState))]++
+			}
+		}
+	}
 }
